@@ -26,7 +26,7 @@ def prop(pid, rules, explanation, decided, declined, assumptions=()):
 
 
 prop('C09',
-     [('R05', cf.r05_status_ownership), ('R06', cf.r06_round_monotone), ('R02', cf.r02_elect_sites), ('R03', bt.r03_batch_cap), ('R03c', bt.r03c_single_defeat_guard)],
+     [('R00', cf.r00_helper_semantics), ('R05', cf.r05_status_ownership), ('R06', cf.r06_round_monotone), ('R02', cf.r02_elect_sites), ('R03', bt.r03_batch_cap), ('R03c', bt.r03c_single_defeat_guard)],
      'Static analysis of /repo source. Status fields are written only inside Candidate; every elect/defeat/'
      'unpend/unelect receiver is drawn (candidate-derivation analysis through the rule-local helpers) from the '
      'status set the transition starts from; unelect only in QPQ on elected candidates; E.round only '
@@ -38,7 +38,7 @@ prop('C09',
       '"elected never exceed seats" for simultaneous quota elections (arithmetic)'])
 
 prop('C01',
-     [('R01', cf.r01_total_sweep), ('R02', cf.r02_elect_sites), ('R03', bt.r03_batch_cap), ('R03b', bt.r03b_defeat_remaining), ('R03c', bt.r03c_single_defeat_guard), ('R04', lp.r04_loops), ('R05', cf.r05_status_ownership),
+     [('R00', cf.r00_helper_semantics), ('R01', cf.r01_total_sweep), ('R02', cf.r02_elect_sites), ('R03', bt.r03_batch_cap), ('R03b', bt.r03b_defeat_remaining), ('R03c', bt.r03c_single_defeat_guard), ('R04', lp.r04_loops), ('R05', cf.r05_status_ownership),
       ('R38', rr.r38_first_and_last_action)],
      'Static analysis of /repo source over the count() of every registered rule class (CFG path rules with a small '
      'path-sensitive fact domain, candidate-derivation dataflow): every path to the end of count() completes a total '
@@ -85,7 +85,7 @@ prop('C17',
 prop('C18',
      [('R37', rr.r37_status_changes_logged), ('R38', rr.r38_first_and_last_action), ('R39', rr.r39_tag_agreement),
       ('R40', rr.r40_action_key_flow), ('R41', rr.r41_renderers_read_record), ('R42', rr.r42_dump_arity),
-      ('R03', bt.r03_duplicates)],
+      ('R03', bt.r03_duplicates), ('R05', cf.r05_status_ownership)],
      'Static analysis of /repo source: elect/defeat log themselves on every path; the first recorded action of every rule '
      'is begin/count/round and the end action is followed directly by the result assignment; tags agree between emitters, '
      'recorder and renderers; renderers and rule hooks read only action keys that the recorder stores for that kind of '
@@ -93,7 +93,8 @@ prop('C18',
      'of exclusions names nobody twice. ' + NOT_BEHAVIOUR,
      ['status changes log themselves (R37)', 'first action fills the header; end agrees with E.elected/defeated (R38)',
       'tag agreement (R39)', 'action-key flow recorder -> renderers (R40)', 'renderers read only the record (R41)',
-      'dump rows have the header arity (R42)', 'no duplicate exclusion in one step (R03 ii)'],
+      'dump rows have the header arity, one row/line per action (R42)', 'no duplicate exclusion in one step (R03 ii)',
+      'status is changed only by Candidate.elect/defeat, which log (R05)'],
      ['textual agreement of report/dump/JSON figures (they print str() of the same stored object)'])
 prop('C15',
      [('R26', ps.r26_cid_sanitiser), ('R27', ps.r27_typecode_capacity), ('R28', ps.r28_strip_complete),
@@ -146,7 +147,7 @@ prop('C14',
      ['__str__ purity, half-up constants, sign-safe split, str-only rendering (R25)', 'value immutability (R50)'],
      ['digit-exactness of the printed string for a given value (needs evaluation)'])
 prop('C07',
-     [('R15', ti.r15_tie_funnel), ('R16', ti.r16_extremum_polarity), ('R17', ti.r17_single_from_breaktie),
+     [('R00', cf.r00_helper_semantics), ('R15', ti.r15_tie_funnel), ('R16', ti.r16_extremum_polarity), ('R17', ti.r17_single_from_breaktie),
       ('R18', ti.r18_sure_loser_strict), ('R03', bt.r03_batch_cap)],
      'Static analysis of /repo source: the tie order is consulted only inside the rules\' breakTie functions, which log '
      'every tie among several candidates and return the first in the declared order; the set handed to breakTie for an '
@@ -168,7 +169,7 @@ prop('C11',
       'withdrawn stripped completely (R28)', 'withdrawn ids validated (R26)'],
      ['equality of winners/tallies under renumbering and record equality with the candidate deleted (metamorphic, two runs)'])
 prop('C06',
-     [('R07', gr.r07_transfer_once), ('R08', gr.r08_reset_pairing), ('R09', gr.r09_reweighting), ('R21', va.r21_scale_rounding)],
+     [('R00', cf.r00_helper_semantics), ('R07', gr.r07_transfer_once), ('R08', gr.r08_reset_pairing), ('R09', gr.r09_reweighting), ('R21', va.r21_scale_rounding)],
      'Static analysis of the five Gregory-family rules: transfer() credits every ballot exactly once (candidate or '
      'non-transferable total) and walks to the next continuing candidate; tallies are written only by the first count, '
      'transfer() and the two resets, each reset preceded by the transfer of every ballot standing to that candidate; ballot '
@@ -189,7 +190,7 @@ prop('C10',
       'the ballot total is built line by line from the kept multipliers only (R29)'],
      ['equality of whole records under re-presentation (metamorphic)', 'tokenizer layout/comment/nickname behaviour'])
 prop('C08',
-     [('R10', mk.r10_residual_pairing), ('R11', mk.r11_keep_factors), ('R12', mk.r12_iteration_exits),
+     [('R00', cf.r00_helper_semantics), ('R10', mk.r10_residual_pairing), ('R11', mk.r11_keep_factors), ('R12', mk.r12_iteration_exits),
       ('R14', qt.r14_elect_before_exclude), ('R04', lp.r04_loops), ('R21', va.r21_scale_rounding)],
      'Static analysis of meek.py and meek_prf.py: in every block of the distribution loops the expressions credited to a '
      'tally are exactly those debited from the ballot residual, residuals start at the multiplier and are summed once per '
@@ -202,7 +203,7 @@ prop('C08',
      ['0 < kf <= 1 for elected candidates and non-negativity of tallies: numeric'])
 
 prop('C04',
-     [('R13', qt.r13_quota), ('R14', qt.r14_elect_before_exclude), ('R02', cf.r02_elect_sites), ('R12', mk.r12_iteration_exits)],
+     [('R00', cf.r00_helper_semantics), ('R13', qt.r13_quota), ('R14', qt.r14_elect_before_exclude), ('R02', cf.r02_elect_sites), ('R12', mk.r12_iteration_exits)],
      'Static analysis of every rule: each quota expression, canonicalised, equals the form the property prescribes for the '
      'branch it is on (exact / truncated + one unit / integer floor + 1 / Meek from the votes still credited / QPQ); the '
      'election comparison is > exactly on exact branches and >= otherwise; epsilon is read only where the arithmetic has '
@@ -214,7 +215,7 @@ prop('C04',
       'the Minneapolis defeat-before-election step is taken as the listed exception of R14'])
 
 prop('C02',
-     [('R07', gr.r07_transfer_once), ('R08', gr.r08_reset_pairing), ('R09', gr.r09_reweighting), ('R10', mk.r10_residual_pairing),
+     [('R00', cf.r00_helper_semantics), ('R07', gr.r07_transfer_once), ('R08', gr.r08_reset_pairing), ('R09', gr.r09_reweighting), ('R10', mk.r10_residual_pairing),
       ('R19', gr.r19_multiplier_last), ('R21', va.r21_scale_rounding), ('R22', va.r22_closure)],
      'Static analysis of the bookkeeping shape that conservation rests on: a transferred ballot is credited exactly once '
      '(candidate or non-transferable total); a tally is reset only after all its ballots were passed on; transfer values '
